@@ -223,7 +223,8 @@ static void *peer_thread(void *arg) {
 }
 
 extern void _dispatch_iocntl(uint32_t param, uint64_t value);
-static long chunk_pages, max_reqs;
+static long chunk_pages, max_reqs; static int io_tq; static dispatch_queue_t iotq;
+extern dispatch_queue_t dispatch_workloop_create(const char *label);
 static int kind_of(const char *s) { for (int i = 0; i < K_NKINDS; i++) if (!strcmp(s, kind_names[i])) return i; return -1; }
 static int load_program(const char *path) {
 	FILE *f = fopen(path, "r"); if (!f) return -1;
@@ -234,7 +235,7 @@ static int load_program(const char *path) {
 		char *rest = line + n;
 		if (!strcmp(w, "cfg")) { char k[32]; long v; int m; while (sscanf(rest, " %31[a-z_]=%ld%n", k, &v, &m) == 2) { rest += m; if (parse_cfg_kv(k, v)) continue;
 			if (!strcmp(k, "threads")) nthreads = (int)v; else if (!strcmp(k, "hqconc")) hq_concurrent = (int)v; else if (!strcmp(k, "inject")) inject_permille = (int)v;
-			else if (!strcmp(k, "chunkpages")) chunk_pages = v; else if (!strcmp(k, "maxreqs")) max_reqs = v; } }
+			else if (!strcmp(k, "chunkpages")) chunk_pages = v; else if (!strcmp(k, "maxreqs")) max_reqs = v; else if (!strcmp(k, "iotq")) io_tq = (int)v; } }
 		else if (!strcmp(w, "chan")) { int id; chan_t c = { 0 }; if (sscanf(rest, "%d %d %d %d %ld %ld %ld %ld %lu", &id, &c.type, &c.transport, &c.dir, &c.lw, &c.hw, &c.interval_us, &c.pipesz, &c.file_len) < 8) return -2;
 			c.used = 1; c.fd_chan = c.fd_peer = -1; CH[id] = c; }
 		else if (!strcmp(w, "peer")) { int id, kind; long nn; if (sscanf(rest, "%d %d %ld", &id, &kind, &nn) < 3) return -3; if (CH[id].npeer < MAXPEEROPS) CH[id].peer[CH[id].npeer++] = (peerop_t){ kind, nn }; }
@@ -251,7 +252,14 @@ static int create_channels(void) {
 	// below the low-water mark, high-water marks between chunk multiples) within reach of small transfers
 	if (chunk_pages > 0) _dispatch_iocntl(1 /* DISPATCH_IOCNTL_CHUNK_PAGES */, (uint64_t)chunk_pages);
 	if (max_reqs > 0) _dispatch_iocntl(4 /* DISPATCH_IOCNTL_MAX_PENDING_IO_REQS */, (uint64_t)max_reqs);
-	hq = dispatch_queue_create("dvio.handlers", hq_concurrent ? DISPATCH_QUEUE_CONCURRENT : NULL);
+	// handler queue: 0 serial, 1 concurrent, 2 a global queue, 3 a workloop
+	if (hq_concurrent == 2) hq = (dispatch_queue_t)dispatch_get_global_queue(0, 0);
+	else if (hq_concurrent == 3) hq = dispatch_workloop_create("dvio.handlers.wl");
+	else hq = dispatch_queue_create("dvio.handlers", hq_concurrent ? DISPATCH_QUEUE_CONCURRENT : NULL);
+	// target queue of the channels (where the library runs the I/O itself): 0 default, 1 private serial, 2 private concurrent, 3 utility global queue
+	if (io_tq == 1) iotq = dispatch_queue_create("dvio.iotq", NULL);
+	else if (io_tq == 2) iotq = dispatch_queue_create("dvio.iotq", DISPATCH_QUEUE_CONCURRENT);
+	else if (io_tq == 3) iotq = (dispatch_queue_t)dispatch_get_global_queue(DISPATCH_QUEUE_PRIORITY_LOW, 0);
 	for (int i = 0; i < MAXCH; i++) if (CH[i].used) {
 		chan_t *c = &CH[i]; int ci = i;
 		if (c->transport == 2) {          // regular file with known content
@@ -276,6 +284,7 @@ static int create_channels(void) {
 			atomic_fetch_add(&CH[ci].cleanup_runs, 1); fwake_all(&CH[ci].cleanup_runs);
 		});
 		if (!c->io) { fprintf(stderr, "channel %d not created\n", i); return -1; }
+		if (iotq) dispatch_set_target_queue(c->io, iotq);
 		if (c->lw > 0) dispatch_io_set_low_water(c->io, (size_t)c->lw);
 		if (c->hw > 0) dispatch_io_set_high_water(c->io, (size_t)c->hw);
 		if (c->interval_us > 0) dispatch_io_set_interval(c->io, (uint64_t)c->interval_us * 1000, 0);
